@@ -14,8 +14,8 @@ import (
 
 func init() {
 	register(&PropMeta{
-		ID:    "C06",
-		Level: "other",
+		ID:          "C06",
+		Level:       "other",
 		Explanation: "Decides the table- and shape-level clauses: (R1) for every player count n the label table returns n pairwise-distinct labels beginning dealer, sb, bb (read from the typed syntax tree with constant evaluation); (R2) the rotation constant equals the index of the bb label in every row, the heads-up row is [bb], [dealer, sb], the rotate helper is append(src[k:], src[:k]...); (R3) player labels are written only by the position updater, by the continue reset (empty) and at construction (empty); (R4) the hand engine receives the same player's labels as stack (as C01.R4) and entry 0 gets a dealer label only when it has none; (R5) the next-BB list is built by a loop over bb+1 … bb+N modulo the same N, appending the id of the seat's player iff the seat is occupied and that player's bankroll is positive, is stored at settlement from the seat manager's current BB seat and reset by the continue step; (R6) the published dealer/SB/BB seats are stored from the seat manager's dealer/SB/BB getters respectively. NOT decided: label order for dead button / dead small blind / sitting-out layouts (slot counting over seat states).",
 		Rules: map[string]string{
 			"R1": "label table well-formed for every row",
@@ -24,6 +24,7 @@ func init() {
 			"R4": "labels forwarded to the hand engine; dealer label added to entry 0 only if missing",
 			"R5": "next-BB scan shape, call-site arguments, store at settlement, reset at continue",
 			"R6": "seat publication pairing (no cross-wiring)",
+			"R7": "the dead dealer/SB label skip is not conditioned on the seat being occupied",
 		},
 		Assumptions: []string{},
 		Run:         checkC06,
@@ -218,6 +219,37 @@ func checkC06(c *Ctx) {
 	}
 	okHU := len(hu) == 2 && len(hu[0]) == 1 && hu[0][0] == "bb" && len(hu[1]) == 2 && hu[1][0] == "dealer" && hu[1][1] == "sb"
 	c.Check(okHU, "R2", "heads-up-row", p.Pos(updater.Pos()), "[bb], [dealer, sb]", fmt.Sprintf("heads-up labels are %v, expected [[bb] [dealer sb]]", hu))
+
+	// ---------------- R7 dead-seat skip also applies to EMPTY seats
+	nAdv, nSkip := 0, 0
+	for _, b := range updater.Blocks {
+		for _, in := range b.Instrs {
+			sl, ok := in.(*ssa.Slice)
+			if !ok || typeShort(sl.Type()) != "[][]string" || sl.Low == nil || sl.High != nil {
+				continue
+			}
+			if z, isZ := p.Sym(sl.Low).ConstInt(); !isZ || z != 1 {
+				continue
+			}
+			nAdv++
+			assigns := false
+			for _, i2 := range b.Instrs {
+				if ss := p.storeSite(i2); ss != nil && ss.Owner == "TablePlayerState" && ss.Field == "Positions" {
+					assigns = true
+				}
+			}
+			if assigns {
+				continue
+			}
+			nSkip++
+			occupiedOnly := nilGuard(p.Guards(sl), false, func(s *Sym) bool {
+				return s.Kind == "extract" && s.Args[0].Strip().Kind == "lookup"
+			})
+			c.Check(!occupiedOnly, "R7", "dead-seat-skip", p.InstrPos(sl), "the dead dealer/SB label is skipped for empty seats too", "the label of a dead dealer/small-blind seat is skipped only when that seat is still occupied: a dead button on a vacated seat shifts every following label")
+		}
+	}
+	c.Min("R7", "label-list advances in the position updater", nAdv, 2)
+	c.Min("R7", "dead-seat skips", nSkip, 1)
 
 	// ---------------- R4
 	if lc.startFn != nil {
